@@ -1,4 +1,6 @@
 import Sudachi.Proofs.CharCat
+import Sudachi.Proofs.CharCatIter
+import Sudachi.Proofs.CharCatRead
 /-!
 # C17 — Character classes of a code point are the union of all definitions covering it
 
@@ -7,7 +9,13 @@ Model: `CharCat.compile` (`character_category.rs: compile`, `collect_boundaries`
 standard library's `slice::binary_search_by` (rustc 1.95.0, the toolchain the harness is built with);
 its documented contract (`searchIdx`, a linear scan) is PROVED of it (`binary_search_contract`), not
 assumed.  Quantifiers: every list of definition lines that loads (each `begin < end`, which the loader
-enforces) and every code point.
+enforces — now a theorem, `loaded_ranges_wellformed`) and every code point.
+
+Depth round.  The READER is in the model byte for byte (`readDef`: `BufRead::lines`, UTF-8 validation,
+`trim`/`split_whitespace` with Unicode White_Space, `split("..")`, `trim_start_matches("0x")`,
+`u32::from_str_radix` with its error kinds, the `+ 1` overflow, the range checks, the comment cut and
+`CategoryType::from_str` = the bitflags flag-expression parser) and so is `CharacterCategory::iter()`
+(`iterRanges`); the theorems below the line `-- depth round` speak about them.
 -/
 namespace C17
 open CharCat
@@ -125,6 +133,235 @@ theorem perm_independent (rs rs' : List CatRange) (hp : rs.Perm rs')
   constructor
   · rintro ⟨r, hr, h⟩; exact ⟨r, hp.mem_iff.mp hr, h⟩
   · rintro ⟨r, hr, h⟩; exact ⟨r, hp.mem_iff.mpr hr, h⟩
+
+-- depth round ------------------------------------------------------------------------------------
+
+/-- `unionAt` is empty exactly when every covering line has an empty class list -/
+theorem union_empty_iff (rs : List CatRange) (x : Nat) :
+    unionAt rs x = 0 ↔ ∀ r ∈ rs, r.b ≤ x ∧ x < r.e → r.c = 0 := by
+  have key : ∀ (rs : List CatRange) (acc : Nat),
+      unionFrom acc rs x = 0 ↔ acc = 0 ∧ ∀ r ∈ rs, r.b ≤ x ∧ x < r.e → r.c = 0 := by
+    intro rs
+    induction rs with
+    | nil => intro acc; simp [unionFrom]
+    | cons r rs ih =>
+      intro acc
+      simp only [unionFrom, List.foldl_cons] at ih ⊢
+      rw [ih]
+      by_cases h : r.b ≤ x ∧ x < r.e
+      · simp only [h, and_self, if_true, Nat.or_eq_zero_iff, List.mem_cons, forall_eq_or_imp, forall_const]
+        constructor
+        · rintro ⟨⟨h1, h2⟩, h3⟩; exact ⟨h1, h2, h3⟩
+        · rintro ⟨h1, h2, h3⟩; exact ⟨⟨h1, h2⟩, h3⟩
+      · simp only [h, if_false, List.mem_cons, forall_eq_or_imp, false_implies, true_and]
+  rw [unionAt_eq, key]; simp
+
+/-- **`lookup_total`.**  Every code point gets an answer from the bisection (no panic, no index out of the
+table), the answer is never the empty set, it is DEFAULT when no line covers the code point, and an answer
+other than DEFAULT is witnessed by a covering line with a non-empty class list.  "DEFAULT exactly when no
+line covers it" is the reading of the property for lines with non-empty class lists that do not name
+DEFAULT themselves; the exact statement is the last clause (`default_does_not_mean_uncovered` shows the
+two ways a covered code point is DEFAULT). -/
+theorem lookup_total (rs : List CatRange) (hwf : ∀ r ∈ rs, r.b < r.e) (x : Nat) :
+    ∃ c, lookup (compile rs) x = some c ∧ c ≠ 0 ∧
+      ((∀ r ∈ rs, ¬ (r.b ≤ x ∧ x < r.e)) → c = DEFAULT) ∧
+      (c ≠ DEFAULT → ∃ r ∈ rs, r.b ≤ x ∧ x < r.e ∧ r.c ≠ 0) ∧
+      (c = DEFAULT ↔ (∀ r ∈ rs, r.b ≤ x ∧ x < r.e → r.c = 0) ∨ unionAt rs x = DEFAULT) := by
+  refine ⟨spec rs x, lookup_compile_eq_union rs hwf x, ?_, ?_, ?_, ?_⟩
+  · unfold spec; simp only; split <;> simp_all [DEFAULT]
+  · intro h
+    have : unionAt rs x = 0 := (union_empty_iff rs x).mpr (fun r hr hc => absurd hc (h r hr))
+    simp [spec, this]
+  · intro hc
+    have hu : unionAt rs x ≠ 0 := by intro h; simp [spec, h] at hc
+    rw [Ne, union_empty_iff] at hu
+    simp only [Classical.not_forall] at hu
+    obtain ⟨r, hr, hcov, hne⟩ := hu
+    exact ⟨r, hr, hcov.1, hcov.2, hne⟩
+  · rw [← union_empty_iff]
+    unfold spec; simp only
+    constructor
+    · intro h; split at h
+      · left; assumption
+      · right; exact h
+    · rintro (h | h)
+      · simp [h]
+      · simp [h, DEFAULT]
+
+/-- a covered code point is DEFAULT when its lines carry no class (`0x30 #comment`) or name DEFAULT -/
+theorem default_does_not_mean_uncovered :
+    lookup (compile [⟨48, 49, 0⟩]) 48 = some DEFAULT ∧ lookup (compile [⟨48, 49, 1⟩]) 48 = some DEFAULT := by
+  decide
+
+/-- **The reader lets through proper ranges only**: every range of a file that loads has
+`begin < end ≤ char::MAX` with both ends scalar values — the hypothesis `hwf` of the theorems above and the
+reason why the `char::from_u32(..).unwrap()` calls of `iter()` cannot panic. -/
+theorem loaded_ranges_wellformed (bytes : List Nat) (rs : List CatRange) (h : readDef bytes = .ok rs) :
+    ∀ r ∈ rs, r.b < r.e ∧ isScalar r.b = true ∧ isScalar r.e = true ∧ r.e ≤ 0x10FFFF :=
+  readDef_ok_wf bytes rs h
+
+/-- the property for FILES: whatever bytes load, bisection over the compiled table reports the union of
+the classes of the covering lines of that file, or DEFAULT -/
+theorem loaded_file_lookup (bytes : List Nat) (rs : List CatRange) (h : readDef bytes = .ok rs) (x : Nat) :
+    lookup (compile rs) x = some (spec rs x) :=
+  lookup_compile_eq_union rs (fun r hr => (readDef_ok_wf bytes rs h r hr).1) x
+
+/-- **Reader, clause 1: total, in order.**  The loop over the lines either accepts every line and then
+yields exactly the ranges of the well-formed lines in file order (`lineRange` = the `(begin, end, classes)`
+triple of a line, `none` for a skipped one), or it stops at the FIRST refused line and reports it with its
+0-based line number; there is no third outcome. -/
+theorem reader_total_in_order (ls : List (List Char)) (i : Nat) :
+    ((∀ l ∈ ls, lineOk l) ∧ parseLinesFrom i ls = .ok (ls.filterMap lineRange)) ∨
+    (∃ pre l post e, ls = pre ++ l :: post ∧ (∀ l' ∈ pre, lineOk l') ∧ parseLine l = .error e ∧
+      parseLinesFrom i ls = .error (i + pre.length, e)) :=
+  parseLinesFrom_total ls i
+
+/-- **Reader, clause 2: bytes.**  `BufRead::lines` in front of the loop: when every segment is UTF-8 the
+result is the loop on the decoded lines; the first segment that is not UTF-8 — if everything before it was
+accepted — ends the load with an I/O error. -/
+theorem reader_bytes (segs : List (List Nat × Bool)) (i : Nat) :
+    (∀ ls : List (List Char), segs.map decodeSegment = ls.map some → readFrom i segs = parseLinesFrom i ls) ∧
+    (∀ pre seg post, segs = pre ++ seg :: post → (∀ s ∈ pre, ∃ l, decodeSegment s = some l ∧ lineOk l) →
+      decodeSegment seg = none → readFrom i segs = .error (i + pre.length, .io)) :=
+  ⟨fun ls h => readFrom_eq_parseLinesFrom segs ls i h,
+   fun pre seg post heq hpre hseg => by rw [heq]; exact readFrom_io pre seg post i hpre hseg⟩
+
+/-- the two places where the loop body indexes / unwraps (`r[0]`, `elem.chars().next().unwrap()`) cannot
+panic: the only panic of the reader is the `+ 1` on `0xFFFFFFFF` (debug build) -/
+theorem reader_no_index_panic (line : List Char) : parseLine line ≠ .error .panicUnreachable :=
+  parseLine_reachable line
+
+/-- **`u32::from_str_radix(_, 16)`** (both number fields and the hex form of a class column): `Ok(n)` iff the
+string, after one optional `+`, is a non-empty string of hex digits (either case, any number of leading
+zeros) with positional value `n < 2³²` -/
+theorem from_str_radix_spec (s : List Char) (n : Nat) :
+    u32FromStrRadix16 s = .ok n ↔ afterSign s ≠ [] ∧ hexValue (afterSign s) 0 = some n ∧ n < 4294967296 :=
+  u32FromStrRadix16_spec s n
+
+/-- **Class names** (`CategoryType::from_str`, seeded C17b): `ALL` is the constant without the two
+NOOOVBOW bits, not "every bit"; `A|B` is the union; a hex number is taken bit for bit -/
+theorem all_is_without_noovbow :
+    categoryFromStr "ALL".toList = some 0x3FFFFFFF ∧ (0x3FFFFFFF : Nat).testBit 30 = false ∧
+    (0x3FFFFFFF : Nat).testBit 31 = false ∧
+    categoryFromStr "ALL|NOOOVBOW".toList = some 0x7FFFFFFF ∧
+    categoryFromStr "KANJI|ALPHA".toList = some 36 ∧ categoryFromStr "0x40".toList = some 64 ∧
+    categoryFromStr "|".toList = none ∧ categoryFromStr "kanji".toList = none ∧ categoryFromStr "0x".toList = none := by
+  decide
+
+/-- **U+10FFFF can never be given a class**: a line containing it would need `end = 0x110000`, which the
+reader refuses (`InvalidChar`); so for every file that loads the last scalar value is DEFAULT. -/
+theorem max_scalar_never_covered (bytes : List Nat) (rs : List CatRange) (h : readDef bytes = .ok rs) :
+    lookup (compile rs) 0x10FFFF = some DEFAULT := by
+  rw [loaded_file_lookup bytes rs h]
+  have : unionAt rs 0x10FFFF = 0 := by
+    rw [union_empty_iff]
+    intro r hr hc
+    have := (readDef_ok_wf bytes rs h r hr).2.2.2
+    omega
+  simp [spec, this]
+
+/-- **`iter()`, full statement.**  For every file that loads and has at least one range line, `iter()` does
+not panic and yields consecutive HALF-OPEN ranges `start..end` running from 0 to `char::MAX` (`Chain`);
+every code point below `char::MAX` lies in exactly one of them; the classes of a range are, for every code
+point in it, the union of the classes of the covering lines or DEFAULT (what `get_category_types` reports);
+neighbouring ranges carry the same classes only when these are DEFAULT (so for every other class set the
+ranges are the MAXIMAL runs); and `char::MAX` itself lies in no range (it is DEFAULT by
+`max_scalar_never_covered`). -/
+theorem iter_ranges_spec (bytes : List Nat) (rs : List CatRange) (h : readDef bytes = .ok rs) (hne : rs ≠ []) :
+    ∃ items, iterRanges (compile rs) = some items ∧ Chain 0 items charMax ∧
+      (∀ x, x < charMax → countIn x items = 1) ∧
+      (∀ it ∈ items, ∀ x, it.1 ≤ x → x < it.2.1 → it.2.2 = spec rs x) ∧
+      AdjEqDef (items.map (·.2.2)) ∧
+      countIn charMax items = 0 := by
+  have hwf := readDef_ok_wf bytes rs h
+  have hsc : ∀ b ∈ fsts (compile rs), isScalar b = true := by
+    intro b hb
+    obtain ⟨r, hr, hb'⟩ := mem_fsts_compile rs b hb
+    rcases hb' with rfl | rfl
+    · exact (hwf r hr).2.1
+    · exact (hwf r hr).2.2.1
+  obtain ⟨items, h1, h2, h3, h4⟩ := iterRanges_spec (compile rs) (compile_ne_nil rs hne) (sinc_compile rs) hsc
+  refine ⟨items, h1, h2, fun x hx => countIn_chain h2 x (Nat.zero_le _) hx, ?_, ?_, countIn_above h2 _ (Nat.le_refl _)⟩
+  · intro it hit x hx1 hx2
+    rw [h3 it hit x hx1 hx2, compile_correct rs (fun r hr => (hwf r hr).1)]
+  · rw [h4]; exact adjEqDef_compile rs
+
+/-- **Finding (pinned code).**  A definition file without any range line (empty, comments only, a BOM in front
+of its only line) loads, every code point is DEFAULT — and `iter()` panics on it
+(`boundaries.last().unwrap()` on the empty vector; reached from `IgnoreYomiganaPlugin::set_up`). -/
+theorem iter_empty_table_counterexample :
+    readDef [] = .ok [] ∧ readDef [0x23, 0x61, 0x0A] = .ok [] ∧
+    readDef [0xEF, 0xBB, 0xBF, 0x30, 0x78, 0x33, 0x30, 0x20, 0x30, 0x78, 0x31, 0x0A] = .ok [] ∧
+    (∀ x, lookup (compile []) x = some DEFAULT) ∧ iterRanges (compile []) = none := by
+  refine ⟨by rfl, by rfl, by rfl, fun x => by simp [compile, finalize, merge, setFirst, applyAll, initCats, collectBoundaries, lookup], by rfl⟩
+
+/-- the delivered repair (`fix_iter_empty.patch`): one range `0..char::MAX` with DEFAULT on the empty table,
+nothing changed on any other table -/
+theorem iter_repaired_empty_table :
+    iterRangesV .fix (compile []) = some [(0, charMax, DEFAULT)] ∧
+    (∀ tab, tab ≠ [] → iterRangesV .fix tab = iterRangesV .cur tab) ∧
+    (∀ tab, iterRangesV .cur tab = iterRanges tab) := by
+  refine ⟨by rfl, ?_, ?_⟩
+  · intro tab h; cases tab with
+    | nil => exact absurd rfl h
+    | cons p t => rfl
+  · intro tab; cases tab <;> rfl
+
+/-- the ranges of `iter()` are NOT always maximal: DEFAULT written out next to an empty class list
+(`0x30 DEFAULT` / `0x31 #nothing`), or next to the uncovered rest, gives neighbouring DEFAULT ranges -/
+theorem iter_not_maximal_counterexample :
+    iterRanges (compile [⟨48, 49, 1⟩, ⟨49, 50, 0⟩]) = some [(0, 49, 1), (49, 50, 1), (50, charMax, 1)] := by
+  decide
+
+/-- non-vacuity of the reader theorems: lines in every accepted spelling, refused lines with their error -/
+example :
+    parseLine "0x0030..0x0039 NUMERIC".toList = .ok (some ⟨48, 58, 16⟩) ∧
+    parseLine "　 0x+30..39..7\tKANJI|0x40 #c".toList = .ok (some ⟨48, 58, 68⟩) ∧
+    parseLine "0x0x30 #nothing".toList = .ok (some ⟨48, 49, 0⟩) ∧
+    parseLine "0X30 KANJI".toList = .ok none ∧ parseLine " # 0x30".toList = .ok none ∧
+    parseLine "0x30".toList = .error .invalidFormat ∧
+    parseLine "0x39..0x30 KANJI".toList = .error .invalidFormat ∧
+    parseLine "0xD7FF KANJI".toList = .error (.invalidChar 0xD800) ∧
+    parseLine "0x10FFFF KANJI".toList = .error (.invalidChar 0x110000) ∧
+    parseLine "0x100000000 KANJI".toList = .error (.parseInt .posOverflow) ∧
+    parseLine "0x KANJI".toList = .error (.parseInt .empty) ∧
+    parseLine "0x30.. KANJI".toList = .error (.parseInt .empty) ∧
+    parseLine "0x-30 KANJI".toList = .error (.parseInt .invalidDigit) ∧
+    parseLine "0xFFFFFFFF KANJI".toList = .error .panicOverflow ∧
+    parseLine "0x30 KANJII".toList = .error (.invalidType "KANJII".toList) := by
+  refine ⟨by rfl, by rfl, by rfl, by rfl, by rfl, by rfl, by rfl, by rfl, by rfl, by rfl, by rfl, by rfl, by rfl, by rfl, by rfl⟩
+
+/-- non-vacuity of `reader_bytes` / first-error order: CRLF, no final newline, a refused line before bytes
+that are not UTF-8 and the other way round -/
+example :
+    readDef [0x30, 0x78, 0x33, 0x30, 0x20, 0x30, 0x78, 0x34, 0x0D, 0x0A, 0x30, 0x78, 0x33, 0x31, 0x20, 0x30, 0x78, 0x38]
+      = .ok [⟨48, 49, 4⟩, ⟨49, 50, 8⟩] ∧
+    readDef [0x30, 0x78, 0x33, 0x30, 0x0A, 0x23, 0xFF, 0x0A] = .error (0, .invalidFormat) ∧
+    readDef [0x23, 0xFF, 0x0A, 0x30, 0x78, 0x33, 0x30, 0x0A] = .error (0, .io) ∧
+    readDef [0x23, 0xED, 0xA0, 0x80, 0x0A] = .error (0, .io) ∧ readDef [0x23, 0xC0, 0x80] = .error (0, .io) := by
+  refine ⟨by rfl, by rfl, by rfl, by rfl, by rfl⟩
+
+/-- non-vacuity at the boundary values the seeded changes exposed: U+00FF/U+0100 (table size, `u8`),
+U+FFFF/U+10000 (`u16`, 3/4-byte), the last coverable code point U+10FFFE and U+10FFFF, the surrogate gap
+U+D7FF/U+E000 — hypotheses of `lookup_compile_eq_union` met, values as the union says -/
+example :
+    (∀ r ∈ [⟨0xC0, 0x100, 32⟩, (⟨0x100, 0x180, 512⟩ : CatRange)], r.b < r.e) ∧
+    lookup (compile [⟨0xC0, 0x100, 32⟩, ⟨0x100, 0x180, 512⟩]) 0xFF = some 32 ∧
+    lookup (compile [⟨0xC0, 0x100, 32⟩, ⟨0x100, 0x180, 512⟩]) 0x100 = some 512 ∧
+    lookup (compile [⟨0xFFFF, 0x10000, 4⟩, ⟨0x10000, 0x10001, 32⟩]) 0xFFFF = some 4 ∧
+    lookup (compile [⟨0xFFFF, 0x10000, 4⟩, ⟨0x10000, 0x10001, 32⟩]) 0x10000 = some 32 ∧
+    lookup (compile [⟨0x10FFFE, 0x10FFFF, 4⟩]) 0x10FFFE = some 4 ∧
+    lookup (compile [⟨0x10FFFE, 0x10FFFF, 4⟩]) 0x10FFFF = some 1 ∧
+    lookup (compile [⟨0xD7FF, 0xE000, 32⟩]) 0xD7FE = some 1 ∧
+    lookup (compile [⟨0xD7FF, 0xE000, 32⟩]) 0xD7FF = some 32 ∧
+    lookup (compile [⟨0xD7FF, 0xE000, 32⟩]) 0xE000 = some 1 ∧
+    iterRanges (compile [⟨0xD7FF, 0xE000, 32⟩]) = some [(0, 0xD7FF, 1), (0xD7FF, 0xE000, 32), (0xE000, 0x10FFFF, 1)] ∧
+    iterRanges (compile [⟨0, 1, 2⟩]) = some [(0, 0, 1), (0, 1, 2), (1, 0x10FFFF, 1)] := by
+  refine ⟨by decide, by decide, by decide, by decide, by decide, by decide, by decide, by decide, by decide, by decide, by decide, by decide⟩
+
+/-- non-vacuity of `iter_ranges_spec`: a file that loads with one range line -/
+example : ∃ rs, readDef [0x30, 0x78, 0x33, 0x30, 0x20, 0x30, 0x78, 0x34, 0x0A] = .ok rs ∧ rs ≠ [] :=
+  ⟨[⟨48, 49, 4⟩], by rfl, by simp⟩
 
 /-- non-vacuity: the overlapping example of DESIGN §2.3 (NUMERIC 0x30..0x39, KANJI 0x35,
 SYMBOL 0x3A..0x40) meets the hypothesis and yields the hand-computed table. -/
